@@ -475,6 +475,42 @@ func c17FreeReset(c *Ctx) int {
 			}
 		}
 	}
+	// Free drops the handle it is called on - nothing else: an earlier copy of the handle (another
+	// variable, the element stored in a Stack, a Condition's expression) is a live instance as before
+	for _, mk := range []func() (free func() error, copyOf any, holder stackage.Stack, what string){
+		func() (func() error, any, stackage.Stack, string) {
+			x := stackage.Cond("k", stackage.Eq, stackage.Or().Push("v")).SetID("kept").SetEncap(`"`)
+			cp := x
+			return x.Free, cp, stackage.And().Push("a", cp, stackage.Cond("outer", stackage.Ne, cp)), "Condition"
+		},
+		func() (func() error, any, stackage.Stack, string) {
+			x := stackage.List().SetMutex().SetID("kept").Push("a", nil, stackage.Cond("k", stackage.Eq, "v"))
+			cp := x
+			return x.Free, cp, stackage.And().Push("a", cp, stackage.Cond("outer", stackage.Ne, cp)), "Stack"
+		},
+	} {
+		n++
+		c.Transitions.Add(1)
+		free, cp, holder, what := mk()
+		var before, hb string
+		if p := noPanic(func() { before, hb = observe(cp, false), holder.String() }); p != "" {
+			c.Violation("panic:before-Free", what+": "+p, nil, 0)
+			continue
+		}
+		var err error
+		if p := noPanic(func() { err = free() }); p != "" || err != nil {
+			c.Violation("Free:failed", fmt.Sprintf("Free on a writable %s: error %v panic %q", what, err, p), nil, 0)
+			continue
+		}
+		var after, ha string
+		if p := noPanic(func() { after, ha = observe(cp, false), holder.String() }); p != "" {
+			c.Violation("Free:earlier-copy-unusable", fmt.Sprintf("after Free on one handle of a %s, an earlier copy of that handle (held by a variable and by a Stack) panics: %s", what, p), nil, 0)
+			continue
+		}
+		if after != before || ha != hb {
+			c.Violation("Free:earlier-copy-changed", fmt.Sprintf("after Free on one handle of a %s, an earlier copy of that handle answers differently:\n before %s | %s\n after  %s | %s", what, before, hb, after, ha), nil, 0)
+		}
+	}
 	cd := stackage.Cond("k", stackage.Eq, "v").SetReadOnly(true)
 	if err := cd.Free(); err == nil || !cd.IsInit() {
 		c.Violation("Free:read-only", fmt.Sprintf("Free on a read-only Condition returned %v, IsInit=%v", err, cd.IsInit()), nil, 0)
